@@ -41,6 +41,24 @@ MIN_COUNTERS = {"quick": {"must_reject": 9000, "must_accept": 2500, "route_kwarg
                 "thorough": {"must_reject": 200000, "must_accept": 40000, "route_kwargs": 100000, "route_etree": 120000, "monitor_init_postcondition_calls": 600000}}
 
 
+_PARENTS = {}
+
+
+def parents_of(name):
+    """[(parent class, attribute)] where the parent declares `name` as an optional, non-repeated sub-aggregate."""
+    if not _PARENTS:
+        for pname, pcls in ref_decl.all_classes().items():
+            if ref_decl.overrides_validate_args(pcls):
+                continue
+            opt, req = ref_decl.mutexes_in_force(pcls)
+            grouped = {g for grp in list(opt) + list(req) for g in grp}
+            for k, t in ref_decl.decl(pcls).items():
+                if ref_decl.kind_of(t) == "sub" and not getattr(t, "required", False) and k not in grouped:
+                    _PARENTS.setdefault(t.__type__.__name__, []).append((pname, k))
+        _PARENTS.setdefault("", [])
+    return _PARENTS.get(name, [])
+
+
 _FOREIGN = []
 
 
@@ -75,6 +93,7 @@ class Probe:
         self.ctx, self.name, self.cls, self.seedstr = ctx, name, cls, seedstr
         self.rng = random.Random(seedstr)
         self.d = ref_decl.decl(cls)
+        self._nested_done = 0
 
     # ---- outcome monitors ----
     def attempt(self, route, fn):
@@ -88,6 +107,7 @@ class Probe:
 
     def must_reject(self, what, route, fn, detail):
         ctx = self.ctx
+        self._cur_what = what
         ctx.ev()
         ctx.count("must_reject")
         st, r, _ = self.attempt(route, fn)
@@ -122,7 +142,45 @@ class Probe:
 
     def from_etree(self, elem):
         from ofxtools.models.base import Aggregate
-        return Aggregate.from_etree(elem)
+        try:
+            return Aggregate.from_etree(elem)
+        except Exception:
+            self.nested(elem)
+            raise
+
+    def nested(self, elem):
+        """The tree that was just refused, put where a parent class holds this class as an OPTIONAL child: the parent must refuse
+        the whole document, not quietly go on without the child."""
+        from ofxtools.models.base import Aggregate
+
+        if elem.tag != self.name or self._nested_done >= 8:
+            return
+        parents = parents_of(self.name)
+        if not parents:
+            return
+        pname, attr = parents[(self._nested_done + len(self.seedstr)) % len(parents)]
+        self._nested_done += 1
+        pcls = ref_decl.all_classes()[pname]
+        try:
+            pinst = instances.build(pcls, random.Random(self.seedstr + "/nested"), "min", opts=instances.Opts(stratum="plain", force=[attr]))
+            ptree = pinst.to_etree()
+            idx = next(i for i, c in enumerate(ptree) if c.tag == elem.tag)
+        except Exception:
+            self.ctx.count("base_failed")
+            return
+        ptree.remove(ptree[idx])
+        ptree.insert(idx, copy.deepcopy(elem))
+        self.ctx.ev()
+        self.ctx.count("nested_violations_offered")
+        try:
+            with warnings.catch_warnings():
+                warnings.simplefilter("ignore")
+                got = Aggregate.from_etree(ptree)
+        except Exception:
+            return
+        self.ctx.violation(f"nested-violation-swallowed/{pname}.{attr}", f"a <{elem.tag}> tree that {self.name} itself refuses ({getattr(self, '_cur_what', '?')}) "
+                           f"was accepted inside {pname}: -> {got!r}"[:400],
+                           {"cls": self.name, "seedstr": self.seedstr, "what": "nested", "route": "etree", "detail": f"{pname}.{attr}"})
 
     def tag(self, attr):
         return ref_decl.tag_of(self.cls, attr)
@@ -409,6 +467,21 @@ class Probe:
                     pos += 1
                 self.ctx.count("order_across_list_runs_probed")
                 self.must_reject("out-of-order-accepted", "etree", lambda: self.from_etree(e2), f"{hi},{lo},{mid}")
+                # members may interleave only WITHIN a run: a member of the earlier run after the plain child, or after a member of
+                # the later run, is out of sequence as well
+                for order, label in (((el, em, eh, el), f"{lo},{mid},{hi},{lo}"), ((eh, el), f"{hi},{lo}"), ((el, eh, el), f"{lo},{hi},{lo}")):
+                    e3 = copy.deepcopy(elem)
+                    for c in list(e3):
+                        if c.tag in (tl, th, tm):
+                            e3.remove(c)
+                    pos = min(first, len(e3))
+                    for c in order:
+                        e3.insert(pos, copy.deepcopy(c))
+                        pos += 1
+                    self.must_reject("out-of-order-accepted", "etree", lambda e3=e3: self.from_etree(e3), label)
+                # ... while the declared order itself is fine
+                e4 = copy.deepcopy(elem)
+                self.must_accept("declared-order", "etree", lambda: self.from_etree(e4), f"{lo},{mid},{hi}")
                 return
 
     def list_members(self):
